@@ -64,6 +64,9 @@ def model_body(case):
     return c09.model_body(case)
 
 
+FILLS = [[0], [0], [0x7FC00000], [0x7F800000, 0xFF800000], [0x7149F2CA], [0x40F00000, 0x7FC00000]]   # what sits under the mask: 0, NaN, ±inf, 1e30, 7.5 / NaN
+
+
 def run(ctx):
     rng = ctx.rng
     tf_queue, tf_meta = [], []
@@ -89,17 +92,19 @@ def run(ctx):
         scale = rng.choice([1, 2, 0.5, 100])
         be = rng.choice(["numpy", "numpy", "tf"])
         op = {"k": "normalize", "p1": p1, "p2": p2, "scale": scale}
-        a_, t_ = rng.choice([2.0, 0.5, 4.0]), np.array([rng.randint(-32, 32) / 4 for _ in range(D)])
+        a_, t_ = rng.choice([2.0, 0.5, 4.0, 1 / 256, 256.0]), np.array([rng.randint(-32, 32) / 4 for _ in range(D)])
         moved = with_data(case, data * a_ + t_)
-        info = {"case": case, "op": op, "backend": be, "similarity": [a_, t_.tolist()]}
+        fill = rng.choice(FILLS)
+        info = {"case": case, "op": op, "backend": be, "similarity": [a_, t_.tolist()], "under_the_mask": fill}
+        ctx.count("under the mask:" + ("zero" if fill == [0] else "garbage"))
         nontrivial = bool((conf == 0).any())
         ctx.evaluated(json.dumps([case, op, be]), nontrivial=nontrivial); ctx.count("normalize:" + be)
         if be == "tf":
-            tf_queue.append(dict(case, fill1=[0], fill2=[0], ops=[op], backend="tf")); tf_queue.append(dict(moved, fill1=[0], fill2=[0], ops=[op], backend="tf"))
+            tf_queue.append(dict(case, fill1=fill, fill2=[0], ops=[op], backend="tf")); tf_queue.append(dict(moved, fill1=fill, fill2=[0], ops=[op], backend="tf"))
             tf_meta.append(("normalize", info, case, (p1, p2, scale)))
         else:
-            check_normalize(ctx, bad, info, case, niexec.run_case(dict(case, fill1=[0], fill2=[0], ops=[op], backend=be), be)["run1"],
-                            niexec.run_case(dict(moved, fill1=[0], fill2=[0], ops=[op], backend=be), be)["run1"], p1, p2, scale)
+            check_normalize(ctx, bad, info, case, niexec.run_case(dict(case, fill1=fill, fill2=[0], ops=[op], backend=be), be)["run1"],
+                            niexec.run_case(dict(moved, fill1=fill, fill2=[0], ops=[op], backend=be), be)["run1"], p1, p2, scale)
             model_reqs.append({"op": "body_ops", "backend": "numpy", "body": model_body(case), "ops": [{"k": "normalize", "p1": p1, "p2": p2, "scale": f64_bits(float(scale))}]})
             model_meta.append((info, case, [op]))
     # ------------------------------------------------------------------ distribution
@@ -118,12 +123,13 @@ def run(ctx):
         be = rng.choice(["numpy", "numpy", "tf"])
         back = rng.random() < 0.4
         op = {"k": "normalize_unnormalize" if back else "normalize_distribution", "axis": axis}
-        info = {"case": case, "op": op, "backend": be}
+        fill = rng.choice(FILLS)
+        info = {"case": case, "op": op, "backend": be, "under_the_mask": fill}
         ctx.evaluated(json.dumps([case, op, be]), nontrivial=bool((conf == 0).any())); ctx.count("distribution:%s:%s" % (be, "back" if back else "forward"))
         if be == "tf" and not back:
-            tf_queue.append(dict(case, fill1=[0], fill2=[0], ops=[op], backend="tf")); tf_meta.append(("distribution", info, case, (axis, back)))
+            tf_queue.append(dict(case, fill1=fill, fill2=[0], ops=[op], backend="tf")); tf_meta.append(("distribution", info, case, (axis, back)))
         elif be != "tf":
-            check_distribution(ctx, bad, info, case, niexec.run_case(dict(case, fill1=[0], fill2=[0], ops=[op], backend="numpy"), "numpy")["run1"], axis, back)
+            check_distribution(ctx, bad, info, case, niexec.run_case(dict(case, fill1=fill, fill2=[0], ops=[op], backend="numpy"), "numpy")["run1"], axis, back)
             model_reqs.append({"op": "body_ops", "backend": "numpy", "body": model_body(case), "ops": [{"k": "normalize_distribution", "all_points": axis == [0, 1, 2], "unnormalize": back}]})
             model_meta.append((info, case, [op]))
     # ------------------------------------------------------------------ 3-D
@@ -265,7 +271,7 @@ def norm3d(ctx, bad, model_reqs, model_meta):
                 if not np.allclose(np.where(mask[f, p], 0, one[0, 0]), np.where(mask[f, p], 0, o), atol=tol):
                     bad("3-D normaliser: a frame / person is not normalised independently of the others", info, {"frame": f, "person": p}); break
         vis = lambda a: np.where(mask, 0, a)
-        t = np.array([rng.randint(-20, 20) / 2 for _ in range(3)]); a_ = rng.choice([0.5, 2.0, 4.0])
+        t = np.array([rng.randint(-20, 20) / 2 for _ in range(3)]); a_ = rng.choice([0.5, 2.0, 4.0, 1 / 256, 1 / 1024, 512.0])
         o2, _ = run3d(data + t, mask, plane, line, size)
         if not np.allclose(vis(out), vis(o2), atol=tol):
             bad("3-D normaliser: the output changes when the input is translated", info, {"t": t.tolist(), "max_abs": float(np.abs(vis(out) - vis(o2)).max())})
